@@ -389,6 +389,9 @@ PLAIN_DERS = ["d", "d1", "ratio", "total_A", "E0"]
 PLAIN_RXNS = ["r", "v1", "v_2", "flux", "R10"]
 #: names the exporter escapes / the importer renames (finding F-C08-5)
 ODD_NAMES = ["x.c", "y-1", "_u", "1s", "lambda", "a__46__b", "p q", "c(e)", "x+y", "w__", "ä"]
+#: names with a meaning of their own somewhere in the pipeline: module constants, table functions, module names
+RESERVED_NAMES = ["pi", "e", "inf", "nan", "sin", "log", "max", "abs", "power", "sqrt", "exp", "np", "math", "numpy", "E", "I",
+                  "ceil", "remainder", "true", "false", "avogadro", "piecewise"]
 COEFS = ["-2", "-1", "1", "2", "-1/2", "5/2", "3/2", "-3", "1/4"]
 
 
@@ -455,7 +458,7 @@ def _has_float(body) -> bool:
 
 def gen_model(rng, *, stratum: str):
     """stratum: exact | float | names | unsupported:<kind> | refclash | boolnum | gennames | samepath | sharedfn |
-    permargs | body | compartment"""
+    permargs | body | compartment | concname | reserved | digits"""
     floaty = stratum == "float"
     mk_fn.styles = ["p", "letters"] if stratum == "sharedfn" else (
         ["perm"] if stratum == "permargs" else ["p", "same", "letters", "perm"])
@@ -466,6 +469,12 @@ def gen_model(rng, *, stratum: str):
     ds = rng.sample(PLAIN_DERS, nd)
     rs = rng.sample(PLAIN_RXNS, nr)
     finding = None
+    if stratum == "reserved":
+        mk_fn.styles = ["p"]
+        res = rng.sample(RESERVED_NAMES, 3)
+        vs[0] = res[0]
+        if rng.random() < 0.7:
+            ps[0] = res[1]
     if stratum == "names":
         odd = rng.choice(ODD_NAMES)
         which = rng.choice(["v", "p", "d"] if ds else ["v", "p"])
@@ -639,21 +648,128 @@ def gen_model(rng, *, stratum: str):
             "floaty": floaty}
     if stratum == "samepath":
         case["prev"] = gen_model(rng, stratum="exact")["model"]
+    if stratum == "reserved":
+        # components called like things the exporter (or the importer) gives a meaning of their own: the module
+        # constants, functions of the tables, the module names.  The functions use p0, p1, … as parameters, so the
+        # Python source is unaffected; after the renaming the body holds the component's name.
+        pass
+    if stratum == "digits":
+        # values that need 16-17 significant digits (0.1 + 0.2, 1/3): libsbml's writer keeps 15 (finding F-C08-18)
+        tgt = [pr for pr in model["params"] if pr[1][0] == "val"][:1] + [vr for vr in model["vars"] if vr[1][0] == "val"][:1]
+        for t in tgt[: rng.choice([1, len(tgt)])]:
+            t[1] = ["val", _val(float(rng.choice(["0.30000000000000004", "0.3333333333333333", "0.7000000000000001",
+                                                   "1.1000000000000001", "2.6750000000000003"])))]
+            case.setdefault("exact_init", []).append(t[0])
+        case["finding"] = "F-C08-18"
+    if stratum == "concname":
+        # a component called like the quantity the third-party importer adds for a species written as an amount
+        # (`<species>_conc` = amount / compartment size): finding F-C08-17
+        v0 = rng.choice(vs)
+        model["params"].append([f"{v0}_conc", ["val", rng.choice(["3", "5/2", "7"])]])
+        f = model["rxns"][0]["fn"]
+        f["params"] = f["params"] + ["cpar"]
+        f["args"] = f["args"] + [f"{v0}_conc"]
+        f["body"] = [["ret", ["binop", "Add", f["body"][0][1], ["name", "cpar"]]]] + f["body"][1:]
+        case["finding"] = "F-C08-17"
     if stratum == "compartment":
-        # the `compartments` option of `write`: another size, another id, several compartments
-        opt = rng.choice(["size", "size", "id", "two"])
+        # the `compartments` option of `write`: another size, another id, several compartments (the species live in
+        # the first one), none at all, an id that is a component name; and the default compartment next to a
+        # component called like it.  Sizes other than 1 everywhere: a species written as a concentration shows.
+        opt = rng.choice(["size", "size", "id", "two", "two", "empty", "clash", "defaultname"])
+        size = rng.choice(["2", "1/2", "4", "1"])
+        computed_on = [sp for r in model["rxns"] for sp, c in r["stoich"] if c[0] == "fn"]
+        if computed_on and opt in ("size", "id") and rng.random() < 0.6:
+            opt = "refid"
         if opt == "size":
-            case["compartments"] = [["compartment", rng.choice(["2", "1/2", "4"])]]
+            case["compartments"] = [["compartment", size]]
+        elif opt == "refid":
+            # a compartment called like the species reference the exporter invents for a computed coefficient
+            # (`<species>ref`): the reference names avoid the compartment ids too (F-C08-19, repaired)
+            case["compartments"] = [[f"{computed_on[0]}ref", size]]
+            case["refid"] = True
         elif opt == "id":
-            case["compartments"] = [[rng.choice(["c", "cell", "cytosol"]), "1"]]
-        else:
-            case["compartments"] = [["compartment", "1"], ["c2", rng.choice(["1", "2"])]]
-        if opt != "two":  # a second compartment holds no species: its size is immaterial
-            case["finding"] = "F-C08-14"
-        else:
+            case["compartments"] = [[rng.choice(["c", "cell", "cytosol"]), size]]
+        elif opt == "two":
+            first = rng.choice(["compartment", "cell", "c0"])
+            pair = [[first, size], ["c2", rng.choice(["1", "2"])]]
+            if rng.random() < 0.4:
+                pair = [["c2", rng.choice(["1/2", "2"])], [first, size]]
+            case["compartments"] = pair
             case["options"] = rng.choice([{"model_name": "my model-1"}, {"units": True}, {"model_name": "m2", "units": True},
                                           {"time_units": "second", "extent_units": "mole"}])
+        elif opt == "empty":
+            case["compartments"] = []
+            case["refuse"] = True
+        elif opt == "clash":
+            names = [n for n, _ in model["params"] + model["vars"] + model["derived"]] + [r["name"] for r in model["rxns"]]
+            case["compartments"] = [["c0", "1"], [rng.choice(names), size]]
+            rng.shuffle(case["compartments"])
+            case["refuse"] = True
+        else:
+            # no option; a parameter called like the default compartment (or like the name that avoids it)
+            model["params"].append(["compartment", ["val", rng.choice(["3", "5/2"])]])
+            if rng.random() < 0.5:
+                model["params"].append(["compartment_", ["val", "7"]])
+            f = model["rxns"][0]["fn"]
+            f["params"] = f["params"] + ["cpar"]
+            f["args"] = f["args"] + ["compartment"]
+            f["body"] = [["ret", ["binop", "Add", f["body"][0][1], ["name", "cpar"]]]] + f["body"][1:]
     return case
+
+
+def language_cases():
+    """exhaustive, seed-independent: every operator, comparison, constant and function of the exporter's language
+    (Model/C08Language.lean: what `C08_export_total` says is exported), every way of spelling the callee — one small
+    model each.  A dropped table entry or a branch that stopped working shows here with the input."""
+    x, k = ["name", "p0"], ["name", "p1"]
+    pos = ["binop", "Add", ["call", ["direct", "abs"], [x]], ["num", "1"]]                    # >= 1
+    unit = ["binop", "Div", ["call", ["direct", "min"], [["call", ["direct", "abs"], [x]], ["num", "1"]]], ["num", "2"]]  # [0, 1/2]
+    exprs = []
+    for op in ("Add", "Sub", "Mult"):
+        exprs.append((f"binop {op}", ["binop", op, x, k], False))
+    exprs.append(("binop Div", ["binop", "Div", x, pos], True))
+    exprs.append(("binop FloorDiv", ["binop", "FloorDiv", x, pos], False))
+    exprs.append(("binop Pow", ["binop", "Pow", x, ["num", "2", "i"]], False))
+    exprs.append(("unary USub", ["unary", "USub", x], False))
+    for op in ("Lt", "LtE", "Gt", "GtE", "Eq", "NotEq"):
+        exprs.append((f"cmp {op}", ["ifexp", ["compare", x, [[op, k]]], x, k], False))
+    exprs.append(("chain", ["ifexp", ["compare", ["num", "0"], [["Lt", x], ["LtE", k]]], x, k], False))
+    exprs.append(("not", ["ifexp", ["unary", "Not", ["compare", x, [["Lt", k]]]], x, k], False))
+    exprs.append(("bool consts", ["ifexp", ["bool", True], x, ["ifexp", ["bool", False], k, x]], False))
+    for mod in ("np", "numpy", "math"):
+        for c in ("pi", "e"):
+            exprs.append((f"attr {mod}.{c}", ["binop", "Mult", x, ["attr", mod, c]], True))
+        exprs.append((f"attr {mod}.inf", ["call", ["direct", "min"], [x, ["attr", mod, "inf"]]], False))
+    direct_ok = {"sqrt", "ceil", "log", "log10", "sin", "cos", "tan", "power", "remainder", "abs", "max", "min"}
+    math_has = {"sqrt", "ceil", "log", "log10", "sin", "cos", "tan", "sinh", "cosh", "tanh"}
+    unary = {"sqrt": pos, "log": pos, "log10": pos, "abs": x, "ceil": x, "sin": x, "cos": x, "tan": unit, "arcsin": unit,
+             "arccos": unit, "arctan": x, "sinh": unit, "cosh": unit, "tanh": x, "arcsinh": x,
+             "arccosh": pos, "arctanh": unit}
+    for f, arg in unary.items():
+        spell = [["lib", "np", f], ["lib", "numpy", f]] if f != "abs" else []
+        if f in direct_ok:
+            spell.append(["direct", f])
+        if f in math_has and f != "ceil":
+            spell.append(["lib", "math", f])
+        for cal in spell:
+            exprs.append((f"call {'.'.join(cal[1:])}", ["call", cal, [arg]], f not in ("abs", "ceil")))
+    for f, args in (("power", [x, ["num", "2", "i"]]), ("remainder", [x, pos])):
+        for cal in (["lib", "np", f], ["lib", "numpy", f], ["direct", f]):
+            exprs.append((f"call {'.'.join(cal[1:])}", ["call", cal, args], False))
+    for f in ("max", "min"):
+        for n in (2, 3):
+            exprs.append((f"call {f}/{n}", ["call", ["direct", f], [x, k, ["num", "1"]][:n]], False))
+    cases = []
+    for i, (what, e, floaty) in enumerate(exprs):
+        used = set(_names(e))
+        if "p1" not in used:
+            e = ["binop", "Add", e, k]
+        f = {"fname": f"lang_{i}", "params": ["p0", "p1"], "args": ["x", "k"], "body": [["ret", e]], "doc": False, "floaty": floaty}
+        model = {"params": [["k", ["val", "2"]]], "vars": [["x", ["val", "3"]]], "derived": [],
+                 "rxns": [{"name": "r", "fn": f, "stoich": [["x", ["num", "-1"]]]}]}
+        cases.append({"kind": "language", "what": what, "model": model, "must_raise": False, "finding": None, "floaty": floaty,
+                      "states": [[["x", v]] for v in ("3", "1/2", "0")]})
+    return cases
 
 
 def f_expr_using_all(rng, g, params):
@@ -823,8 +939,13 @@ def parse_doc(path: Path):
 
     return {
         "params": [[p.getId(), _val(p.getValue()) if p.isSetValue() else None] for p in m.getListOfParameters()],
-        "species": [[s.getId(), _val(s.getInitialConcentration()) if s.isSetInitialConcentration() else None]
+        "species": [[s.getId(), _val(s.getInitialAmount()) if s.isSetInitialAmount() else (
+                        _val(s.getInitialConcentration()) if s.isSetInitialConcentration() else None)]
                     for s in m.getListOfSpecies()],
+        "compartments": [[c.getId(), _val(c.getSize())] for c in m.getListOfCompartments()],
+        "species_attrs": [[s.getId(), s.getCompartment(), bool(s.getHasOnlySubstanceUnits()),
+                           "concentration" if s.isSetInitialConcentration() else "amount"]
+                          for s in m.getListOfSpecies()],
         "inits": [[i.getSymbol(), math_sexpr(i.getMath(), names)] for i in m.getListOfInitialAssignments()],
         "rules": [[r.getVariable(), math_sexpr(r.getMath(), names)] for r in m.getListOfRules()],
         "rxns": [{"id": r.getId(), "reactants": [ref(s) for s in r.getListOfReactants()],
@@ -840,6 +961,7 @@ def canon_doc(d):
 
     return {
         "params": d["params"], "species": d["species"], "inits": [cm(x) for x in d["inits"]],
+        "compartments": d.get("compartments"), "species_attrs": d.get("species_attrs"),
         "rules": sorted((cm(x) for x in d["rules"]), key=lambda kv: kv[0]),  # stable: duplicates keep document order
         "rxns": [{"id": r["id"], "reactants": r["reactants"], "products": r["products"], "law": canon_math(r["law"])}
                  for r in d["rxns"]],
@@ -932,7 +1054,7 @@ def real_worker(job):
             except Exception as e:  # noqa: BLE001
                 out["orig"] = {"err": type(e).__name__, "msg": str(e)[:200]}
         try:
-            if case.get("compartments"):
+            if case.get("compartments") is not None:
                 from mxlpy.sbml._data import Compartment
 
                 import libsbml
@@ -1012,7 +1134,7 @@ def lean_val(v):
     return v
 
 
-def view(numbers, name_of, kinds, ref=None, stats=None, fill_none=False):
+def view(numbers, name_of, kinds, ref=None, stats=None, fill_none=False, exact=()):
     """project a model's numbers on the original names.
     numbers: {"init": {name: v}, "at": [{"vals": {..}, "rhs": {..}}]} keyed by that model's own names
     name_of: original name -> name in that model; values within tolerance of `ref` (same shape) are snapped to it"""
@@ -1029,6 +1151,8 @@ def view(numbers, name_of, kinds, ref=None, stats=None, fill_none=False):
             r = r.get(n)
         if v is None and fill_none:
             return r
+        if path == ["init"] and n in exact:
+            return v  # an attribute value is not computed: it has to come back as the very same double
         if r is not None and v is not None:
             c = close(v, r)
             if stats is not None:
@@ -1061,7 +1185,8 @@ def judge_case(ctx, case, R, M):
     }
     kinds["all"] = kinds["static"] + kinds["dynamic"]
     small = {k: case.get(k) for k in ("kind", "model", "states", "must_raise", "finding", "floaty", "source", "prev",
-                                       "compartments", "options") if k not in ("compartments", "options") or case.get(k)}
+                                       "compartments", "options", "refuse", "exact_init", "refid")
+             if k not in ("compartments", "options", "refuse", "exact_init", "refid") or case.get(k) is not None}
     r_exp = "error" if "err" in R["export"] else "ok"
     m_exp = None if M is None else ("error" if "err" in M["export"] else "ok")
     if M is not None and bool(M["unsupported"]) != bool(case["must_raise"]):
@@ -1078,6 +1203,22 @@ def judge_case(ctx, case, R, M):
         sp = view(lean_numbers(M["spec"]), ident0, kinds, ref=S0, fill_none=True)
         if json.dumps(sp, sort_keys=True) != json.dumps(S0, sort_keys=True):
             ctx.add_drift(small, S0, sp, "Lean spec of the original model (evalPy) differs from the real model")
+    if case["kind"] == "language" and M is not None and not M.get("in_language"):
+        raise RuntimeError(f"harness: language case {case.get('what')} is outside Model/C08Language.lean's language")
+    # 0a. C08_fn_export_total: every function of the model lies in the exporter's language (Model/C08Language.lean,
+    #     declarative) -> the export must not raise (the options of write aside)
+    if M is not None and M.get("in_language") and r_exp == "error" and not case.get("refuse"):
+        ctx.violation(small, R["export"], "the export raised on a model whose functions all lie in the exporter's language")
+    if M is not None:
+        k = "in language" if M.get("in_language") else "outside language"
+        ctx.hist[k] = ctx.hist.get(k, 0) + 1
+    # 1a. options of `write` that have no document: no compartment for the species, a compartment called like a component
+    if case.get("refuse"):
+        ctx.hist["option refused"] = ctx.hist.get("option refused", 0) + 1
+        ctx.judge(small, {"export": r_exp if r_exp == "ok" else "error:" + R["export"]["err"]}, {"export": "error:ValueError"},
+                  None if m_exp is None else {"export": m_exp if m_exp == "ok" else "error:" + M["export"]["err"]},
+                  what="write(compartments=...) without a compartment for the species / with an id that is a component name must raise")
+        return
     # 1. constructs without MathML counterpart
     if case["must_raise"]:
         ctx.judge(small, {"export": r_exp}, {"export": "error"}, None if m_exp is None else {"export": m_exp},
@@ -1097,10 +1238,21 @@ def judge_case(ctx, case, R, M):
         return
     # 2. structure of the written document
     if M is not None:
+        # `exportModel` (what the round-trip theorems speak about) is the component part of `writeModel`
+        # (`export_from`: with the names `_create_sbml_reactions` starts from; `export_plain` = `exportModel m`, the same
+        #  unless a compartment is called like a species reference — option `refid`)
+        for key in ("export_from",) + (() if case.get("refid") else ("export_plain",)):
+            if m_exp == "ok" and ("ok" not in M[key] or any(M[key]["ok"][k] != M["export"]["ok"][k] for k in M[key]["ok"])):
+                ctx.add_drift(small, M["export"], M[key], f"writeModel and {key} differ on the components")
         if m_exp == "error":
             ctx.add_drift(small, "export ok", M["export"], "model predicts an export error")
         else:
             rd, md = canon_doc(R["export"]["ok"]), canon_doc(M["export"]["ok"])
+            if case.get("finding") == "F-C08-18":
+                # the model's document holds the exact value, the file what libsbml's writer made of it (15 digits)
+                for dd in (rd, md):
+                    dd["params"] = [[k, None] for k, _ in dd["params"]]
+                    dd["species"] = [[k, None] for k, _ in dd["species"]]
             if json.dumps(rd, sort_keys=True) != json.dumps(md, sort_keys=True):
                 ctx.add_drift(small, rd, md, "written document differs from exportModel")
     ident = {n: n for n in kinds["all"]}
@@ -1117,7 +1269,7 @@ def judge_case(ctx, case, R, M):
     if "err" in R["read"]:
         Rv = {"err": R["read"]["err"]}
     else:
-        Rv = view(R["read"], imp, kinds, ref=S, stats=stats)
+        Rv = view(R["read"], imp, kinds, ref=S, stats=stats, exact=case.get("exact_init") or ())
     Mv = None
     if M is not None and m_exp == "ok":
         Mv = view(lean_numbers(M["read"]), imp, kinds, ref=S, stats=stats, fill_none="err" not in Rv)
@@ -1140,9 +1292,8 @@ def judge_case(ctx, case, R, M):
     for k, v in stats.items():
         ctx.hist[f"numbers {k}"] = ctx.hist.get(f"numbers {k}", 0) + v
     fid = case["finding"]
-    if fid in ("F-C08-9", "F-C08-14"):
-        Mv = None  # pysbml refuses booleans as numbers; the model does not predict third-party exceptions
-        # (F-C08-14: the Lean document has the default compartment only)
+    if fid in ("F-C08-9", "F-C08-17", "F-C08-18"):
+        Mv = None  # pysbml refuses booleans as numbers / reuses a component's name; the model does not predict the third party
     ctx.judge(small, Rv, S, Mv, finding=fid, what="export -> import changes names, initial values, derived values, fluxes or derivatives")
 
 
@@ -1248,7 +1399,7 @@ def shrink(ctx, viol, budget: int = 40):
                 break
             spent += 1
             try:
-                c2 = prepare({k: cand.get(k) for k in ("kind", "model", "states", "must_raise", "finding", "floaty", "prev", "compartments", "options")})
+                c2 = prepare({k: cand.get(k) for k in ("kind", "model", "states", "must_raise", "finding", "floaty", "prev", "compartments", "options", "refuse", "exact_init", "refid")})
                 (R, M), = evaluate(ctx, [c2])
                 probe = Ctx(ctx.prop, ctx.tier, ctx.seed)
                 probe.known, probe.fixed = ctx.known, ctx.fixed
@@ -1275,7 +1426,7 @@ def prepare(case):
 
 
 def evaluate(ctx, cases):
-    reqs = [{"op": "c08", "model": c["wire"], "states": c["states"]} for c in cases]
+    reqs = [{"op": "c08", "model": c["wire"], "states": c["states"], "compartments": c.get("compartments")} for c in cases]
     Ms = driver.call_batch(reqs) if ctx.driver_ok else [None] * len(cases)
     jobs = [({k: c.get(k) for k in ("kind", "model", "states", "must_raise", "source", "prev", "prev_source", "compartments", "options")},
              dict(m["names"]) if m is not None else {}) for c, m in zip(cases, Ms)]
@@ -1303,8 +1454,8 @@ def setup(ctx):
         "(pysbml's identifier mapping is modelled as nameToPy)",
         "numbers are compared exactly where double arithmetic is exact and to 1e-9 relative otherwise "
         "(sympy reorders expressions on import)",
-        "modifiers, units, the model name and compartments other than the default one are outside the Lean model "
-        "(stratum `compartment` is oracle-only; known finding F-C08-14)",
+        "modifiers, units and the model name are outside the Lean model; the compartments option and the species "
+        "attributes are modelled (writeModel) and compared with the written file",
     ]
     ctx.trusted_base += ["translate/c08.py renders tables and structural choices of _export.py faithfully (refuses otherwise)"]
 
@@ -1313,7 +1464,7 @@ def strata(ctx):
     n = ctx.n(1, 32)
     plan = [("exact", 130 * n), ("float", 80 * n), ("names", 30 * n), ("refclash", 16 * n), ("boolnum", 9 * n),
             ("gennames", 24 * n), ("samepath", 16 * n), ("sharedfn", 26 * n), ("permargs", 24 * n), ("body", 20 * n),
-            ("compartment", 10 * n)]
+            ("compartment", 24 * n), ("concname", 6 * n), ("reserved", 24 * n), ("digits", 6 * n)]
     plan += [(f"unsupported:{k}", (2 if k.startswith("near:") else 3) * n) for k, _ in UNSUPPORTED]
     return plan
 
@@ -1325,6 +1476,7 @@ def run(ctx):
     for stratum, count in strata(ctx):
         for _ in range(count):
             cases.append(prepare(gen_model(ctx.rng, stratum=stratum)))
+    cases += [prepare(c) for c in language_cases()]
     batch = 256
     for i in range(0, len(cases), batch):
         chunk = cases[i:i + batch]
@@ -1350,7 +1502,7 @@ def run(ctx):
 
 def replay(ctx, rp):
     case = rp["case"]
-    case = prepare({k: case.get(k) for k in ("kind", "model", "states", "must_raise", "finding", "floaty", "prev", "compartments", "options")})
+    case = prepare({k: case.get(k) for k in ("kind", "model", "states", "must_raise", "finding", "floaty", "prev", "compartments", "options", "refuse", "exact_init", "refid")})
     (R, M), = evaluate(ctx, [case])
     print(case["source"])
     print("R =", json.dumps(R, indent=1)[:4000])
